@@ -44,7 +44,7 @@ def fresh_module():
     import fcntl as _real_fcntl
     fu.os = _real_os
     fu.fcntl = _real_fcntl
-    for name in ('open', 'shutil', 'tempfile'):
+    for name in ('open', 'shutil', 'tempfile', 'filecmp'):
         fu.__dict__.pop(name, None)
     importlib.reload(fu)
 
@@ -182,6 +182,7 @@ def run_save(case, plan=None, log=None, hooks=None, fs=None, only_warmup=False):
     fu.shutil = shim
     fu.copy2, fu.copystat = shim.copy2, shim.copystat
     fu.tempfile = simfs.SimTempfile(simos)
+    fu.filecmp = simfs.SimFilecmp(simos)
     for kind, e in (case.get('env') or {}).items():
         sim.persistent[kind] = ('errno', e)
     r = Result()
@@ -461,7 +462,7 @@ def run_real(case):
         fu.fcntl = real_fcntl
         import shutil as _sh
         fu.copy2, fu.copystat = _sh.copy2, _sh.copystat
-        for name in ('open', 'shutil', 'tempfile'):
+        for name in ('open', 'shutil', 'tempfile', 'filecmp'):
             fu.__dict__.pop(name, None)
         exc = None
         try:
@@ -566,7 +567,7 @@ def real_crash_enumeration(case, max_points=40):
                     fu.fcntl = real_fcntl
                     import shutil as _sh
                     fu.copy2, fu.copystat = _sh.copy2, _sh.copystat
-                    for name in ('open', 'shutil', 'tempfile'):
+                    for name in ('open', 'shutil', 'tempfile', 'filecmp'):
                         fu.__dict__.pop(name, None)
                     with make_saver(case, dest_name if case.get('dest_rel') else dest_abs) as f:
                         for step in case['body']:
